@@ -240,12 +240,23 @@ theorem tie_scanEntry (n p c d k v : Nat) (removed : Bool) :
         simp only [hc, hc', hd, hd', decide_false, if_false, Bool.false_eq_true]
 
 /-- one iteration of the drain loop: every entry is unlinked; an entry not flagged removed is forgotten
-(`timers.Del`) and handed to the drain callback with its key and value — the model's `drain`. -/
+(`timers.Del`, on the wheel's goroutine, before any callback can run) and collected with its key and value — the
+model's `drain`. -/
 theorem tie_drainEntry (removed : Bool) :
     drainEntryEff removed = ("call:slot.Remove(e)", 0) ::
-      (if removed then [] else [("call:timers.Del(task.key)", 0), ("call:runner.Schedule{()", 0),
-                                ("call:fn(task.key,task.value)", 0), ("call:}()", 0)]) := by
+      (if removed then [] else [("call:timers.Del(task.key)", 0),
+                                ("call:append:tasks(timingTask{ key: task.key, value: task.value, })", 0)]) := by
   cases removed <;> rfl
+
+/-- **the hand-off of the drained tasks**: nothing to do for an empty wheel; otherwise ONE goroutine that is not the
+run loop's creates the task runner and schedules `fn(key, value)` for every collected task.  `Schedule` blocks while
+all `drainWorkers` workers are busy; because it blocks this goroutine and not the run loop, a callback that calls
+back into the wheel is always served (Handoff.lean: `handoff_off_loop_never_stalls`; on the run loop's own goroutine
+the same code stalls: `handoff_on_loop_stalls`). -/
+theorem tie_drainTail : drainTailStmts =
+    ["if len(tasks) == 0 {", "return", "}",
+     "go func() { runner := threading.NewTaskRunner(drainWorkers) for i := range tasks { task := tasks[i] runner.Schedule(func() { fn(task.key, task.value) }) } }()"] :=
+  rfl
 
 theorem tie_loopHeaders :
     scanLoopHeader = ["e := l.Front()", "e != nil", ""] ∧ drainLoopHeader = ["e := slot.Front()", "e != nil", ""]
@@ -331,8 +342,11 @@ theorem tie_scanShape : scanShape =
      "call e.Next", "call l.Remove", "call tw.timers.Del", "}", "call tw.runTasks"] := by decide
 
 theorem tie_drainShape : drainShape =
-    ["call threading.NewTaskRunner", "range tw.slots {", "for e != nil {", "call e.Next", "call slot.Remove",
-     "if !task.removed {", "call tw.timers.Del", "func{", "call fn", "}", "call runner.Schedule", "}", "}", "}"] := by
+    ["range tw.slots {", "for e != nil {", "call e.Next", "call slot.Remove",
+     "if !task.removed {", "call tw.timers.Del", "}", "}", "}",
+     "if len(tasks) == 0 {", "return", "}",
+     "go{", "func{", "call threading.NewTaskRunner", "range tasks {", "func{", "call fn", "}", "call runner.Schedule",
+     "}", "}", "call func", "}"] := by
   decide
 
 theorem tie_removeShape : removeShape =
